@@ -117,6 +117,10 @@ def contexts(hole):
          else [T('a ')] + h() + [T(' b')]),
         ('in-display', [math_node(('math', 'displaymath'), [T('x ')] + h() + [T(' y')])] if envs_only(hole)
          else [T('a ')] + h() + [T(' b')]),
+        # after a verbatim-like body with an odd number of dollars (a shell prompt): what a raw body contains must not
+        # influence how later math switches are read
+        ('after-verbatim', [Node('env', 'verb', 'verbatim', [], [T('$ make test\necho $HOME $\n')]), T(' a ')] + h()
+         + [T(' b '), Node('env', 'verb', 'lstlisting', [], [T('$$$')])]),
     ]
 
 
@@ -124,7 +128,7 @@ def envs_only(hole):
     return bool(hole) and all(x.kind == 'env' for x in hole)
 
 
-NCONTEXTS = 12
+NCONTEXTS = 13
 
 
 def _doc(rng, nodes):
